@@ -329,7 +329,7 @@ package stree
 //@   ensures  [C01] onlyNodes: forall y ref :: {inD(result, y)} inD(result, y) ==> 0 <= ni[y] && ni[y] < len(nodes) && nodes[ni[y]] == y
 //@   ensures  [C01] onlyKeys: forall k int :: {inK(result, k)} inK(result, k) ==> 0 <= ki[k] && ki[k] < len(nodes) && rank(cmp, nodes[ki[k]].X) == k
 //@   ensures  [C01] values: forall y *node[T] :: {y.X} old(allocated(y)) ==> y.X == old(y.X)
-//@   ensures  [C01] frame: forall y *node[T] :: {y.left} {y.right} {y.keys} {y.desc} old(allocated(y)) && !inD(result, y) ==> sameNode(y)
+//@   ensures  [C01] frame: forall y *node[T] :: {y.left} {y.right} {y.keys} {y.desc} {y.cnt} {y.rep} old(allocated(y)) && !inD(result, y) ==> sameNode(y)
 //@   ensures  [C01] slice: unchanged(elems(nodes))
 //@   modifies every(nodes[0].left), every(nodes[0].right), every(nodes[0].keys), every(nodes[0].desc), every(nodes[0].cnt), every(nodes[0].rep)
 //@   decreases len(nodes)
